@@ -3,7 +3,7 @@ from pyvc.verify import Post, Case, Equiv, NativeFacts
 from contracts import common
 
 PROPERTY = 'C09'
-REF_MODULES = ['ref_match', 'ref_extra', 'ref_core']
+REF_MODULES = ['ref_match', 'ref_extra', 'ref_core', 'ref_reduce', 'ref_auto']
 
 
 def config(cfg):
@@ -49,6 +49,10 @@ def contracts():
     from contracts import extra
     cs.append(Equiv('matching.Regex.glomit', 'ref_core.regex_glomit_ref', args={'self': 'inst:matching.Regex', 'target': 'ref', 'scope': 'chainmap'}))
     cs += common.shared(extra, ['matching._precedence', 'matching.Optional.__init__', 'matching.Required.__init__', 'matching.Optional.glomit', 'matching.Match.verify', 'matching.Match.matches'])
+    # Optional defaults and Match(default=) are produced by arg_val with a fresh per-call valuator (contracts shared with C08)
+    from contracts import C08, X_ctor
+    cs += common.shared(C08, ['core.arg_val', 'core._ArgValuator.mode'])
+    cs += common.shared(X_ctor, ['core._ArgValuator.__init__', 'matching.Match.__init__'])
     return cs
 
 
